@@ -17,7 +17,7 @@ pub fn prop() -> Prop {
         max_len: 400,
         quick: 40_000,
         thorough: 400_000,
-        rule: "choice sequence -> envelope x recipient list of 1-5 keys from a pool of 10 (4 X25519, 2 each ML-KEM-512/768/1024; duplicates allowed, mixed schemes) x every listed and 2-3 unlisted private keys; encrypt_subject_to_recipients, encrypt_subject_to_recipient, encrypt_to_recipient/decrypt_to_recipient, a later add_recipient with the content key, manual encrypt_subject+add_recipient, seal/unseal over generated sender-scheme x recipient-scheme pairs with right/wrong sender and right/wrong recipient. oracle: the encrypted envelope keeps the specification digest of the original subject and all original assertions plus one 'hasRecipient' assertion per distinct sealing; each listed key decrypts to a subject identical to the original (bytes) with the original assertions still present; each unlisted key gets Err; wrapped form and unseal return an envelope byte-identical to the original; earlier recipients still decrypt after add_recipient; wrong sender / wrong recipient give Err. non-trivial: >=2 recipients or a seal case; distinct by FNV-64 of (encoding, recipient indices); the recipient assertions as later holders leave them: one 'hasRecipient' assertion salted / annotated, the predicate obscured everywhere, one sealed message or its assertion obscured - every recipient whose sealed message is still readable opens to the original subject, at most one distinct recipient is locked out; an annotated sealed message; encryption through the *_opt routes chosen by the recipient list; annotated and redacted sealed message ('hasRecipient': ELIDED ['note': ..]) locks out at most its own recipient",
+        rule: "choice sequence -> envelope x recipient list of 1-5 keys from a pool of 10 (4 X25519, 2 each ML-KEM-512/768/1024; duplicates allowed, mixed schemes) x every listed and 2-3 unlisted private keys; encrypt_subject_to_recipients, encrypt_subject_to_recipient, encrypt_to_recipient/decrypt_to_recipient, a later add_recipient with the content key, manual encrypt_subject+add_recipient, seal/unseal over generated sender-scheme x recipient-scheme pairs with right/wrong sender and right/wrong recipient. oracle: the encrypted envelope keeps the specification digest of the original subject and all original assertions plus one 'hasRecipient' assertion per distinct sealing; each listed key decrypts to a subject identical to the original (bytes) with the original assertions still present; each unlisted key gets Err; wrapped form and unseal return an envelope byte-identical to the original; earlier recipients still decrypt after add_recipient; wrong sender / wrong recipient give Err. non-trivial: >=2 recipients or a seal case; distinct by FNV-64 of (encoding, recipient indices); the recipient assertions as later holders leave them: one 'hasRecipient' assertion salted / annotated, the predicate obscured everywhere, one sealed message or its assertion obscured - every recipient whose sealed message is still readable opens to the original subject, at most one distinct recipient is locked out; an annotated sealed message; encryption through the *_opt routes chosen by the recipient list; annotated and redacted sealed message ('hasRecipient': ELIDED ['note': ..]) locks out at most its own recipient; a junk sealed message added for a listed recipient locks nobody out",
         assumptions: &["X25519 / ML-KEM / ChaCha20-Poly1305 are secure: an unlisted key cannot decrypt by chance", "ML-KEM keys are not seedable and differ per run"],
         extra: None,
     }
@@ -222,7 +222,7 @@ pub fn run(data: &[u8], ctx: &mut Ctx) -> Outcome {
             let sealed_assertions = enc.assertions_with_predicate(known_values::HAS_RECIPIENT);
             if !sealed_assertions.is_empty() {
                 let pick = sealed_assertions[src.below(sealed_assertions.len())].clone();
-                let style = src.below(6);
+                let style = src.below(7);
                 // the digest of 'hasRecipient' may also belong to an element of the original envelope (its
                 // subject, say): obscuring "the predicate" would then obscure that element too
                 let hr = M::Known(5).digest();
@@ -243,6 +243,19 @@ pub fn run(data: &[u8], ctx: &mut Ctx) -> Outcome {
                         let annotated = Envelope::new_assertion(known_values::HAS_RECIPIENT, pick.as_object().unwrap().add_assertion(known_values::NOTE, "for the treasurer"));
                         ("annotated-sealed-message", nopanic!(ctx, enc.replace_assertion(pick.clone(), annotated).map_err(|x| x.to_string()), "held", "C10/held").unwrap_or(enc.clone()), true)
                     }
+                    6 => {
+                        // somebody who only knows a listed recipient's PUBLIC key adds a sealed message for them
+                        // that holds no content key (junk, nothing, or a key that opens nothing): the genuine
+                        // sealed message is still there, so every listed recipient still opens the envelope
+                        let ri = *distinct.iter().nth(src.below(distinct.len())).unwrap();
+                        let payload: Vec<u8> = match src.below(3) {
+                            0 => b"no content key here".to_vec(),
+                            1 => vec![],
+                            _ => SymmetricKey::new().to_cbor_data(),
+                        };
+                        let junk = Envelope::new_assertion(known_values::HAS_RECIPIENT, bc_components::SealedMessage::new(payload, &pool.enc[ri].public));
+                        ("junk-sealed-message-added", nopanic!(ctx, enc.add_assertion_envelope(junk).map_err(|x| x.to_string()), "held", "C10/held").unwrap_or(enc.clone()), true)
+                    }
                     5 => {
                         // annotated AND redacted: 'hasRecipient': ELIDED ['note': ..] - that one message is
                         // unreadable, the others are not
@@ -255,7 +268,7 @@ pub fn run(data: &[u8], ctx: &mut Ctx) -> Outcome {
                 };
                 ctx.class(&format!("held:{}", name));
                 let hkey = format!("C10/held/{}", name);
-                if style != 0 && style != 4 && style != 5 {
+                if style != 0 && style != 4 && style != 5 && style != 6 {
                     check!(ctx, changed.digest() == enc.digest(), "held", &hkey, "obscuring changed the digest");
                 }
                 let mut opened = 0usize;
